@@ -857,7 +857,7 @@ func main() {
 	must(err)
 	// worlds run on a few workers in parallel, each with its own child (under strace a call mostly waits for the tracer)
 	top := gen.NewRand(f.Seed)
-	nWorlds := f.N(4, 14)
+	nWorlds := f.N(4, 40)
 	rands := make([]*gen.Rand, nWorlds)
 	for i := range rands {
 		rands[i] = top.Fork()
